@@ -8,7 +8,7 @@
     ingredient of it (character data, attribute values, character references, CDATA text); the tree level is decided
     by the document-level oracle of checks/C12.py on the real library. *)
 From XV Require Import C05.Spec05 C05.Model05 C12.Spec12 C12.Model12
-  C12.Proofs12a C12.Proofs12b C12.Proofs12c C12.Proofs12d C12.Proofs12e C12.Proofs12f C12.ModelNs12 C12.Proofs12g C12.SpecTree12 C12.ProofsTree12e C12.ProofsTree12f C12.ProofsTree12g C12.ProofsTree12h C12.ModelNsSer12 C12.ProofsNsSer12.
+  C12.Proofs12a C12.Proofs12b C12.Proofs12c C12.Proofs12d C12.Proofs12e C12.Proofs12f C12.ModelNs12 C12.Proofs12g C12.SpecTree12 C12.ProofsTree12e C12.ProofsTree12f C12.ProofsTree12g C12.ProofsTree12h C12.ModelNsSer12 C12.ProofsNsSer12 C12.ModelSeq12.
 Local Open Scope N_scope.
 
 (** T12_escape_exact: the bytes of formatBuf are the transcoding of a character-wise map of the input ... *)
@@ -161,12 +161,23 @@ Proof. vm_compute. repeat split; reflexivity. Qed.
 
 (** what [expressible] guards: the model (like the code, known findings F40, F41, F47) writes these trees, and the
     result is not the tree *)
-Example T12_comment_dashes_refuted :
-  match ser_doc sample_cfg [Elem [114] [] [Comment [97; 45; 45; 98]]] with
+Definition sample_cfg_old : scfg := mk_cfg ELatin1 false true true false [73; 83; 79; 45; 56; 56; 53; 57; 45; 49].
+Example T12_comment_dashes_old_refuted :
+  match ser_doc sample_cfg_old [Elem [114] [] [Comment [97; 45; 45; 98]]] with
   | Ok out => reparse false 20 out = None | Err _ => False end.
 Proof. vm_compute. reflexivity. Qed.
-Example T12_pi_data_refuted :
-  reparses_to sample_cfg 20 [Elem [114] [] [PI [116] [97; 63; 62; 98]]] [Elem [114] [] [PI [116] [97]; Text [98; 63; 62]]].
+Example T12_pi_data_old_refuted :
+  reparses_to sample_cfg_old 20 [Elem [114] [] [PI [116] [97; 63; 62; 98]]] [Elem [114] [] [PI [116] [97]; Text [98; 63; 62]]].
+Proof. vm_compute. reflexivity. Qed.
+(** with fixes/C12-comment-pi-wf.patch both are refused (also a comment that ends in "-") *)
+Example T12_comment_pi_refused :
+  ser_doc sample_cfg [Elem [114] [] [Comment [97; 45; 45; 98]]] = Err S_InvalidChar /\
+  ser_doc sample_cfg [Elem [114] [] [Comment [97; 45]]] = Err S_InvalidChar /\
+  ser_doc sample_cfg [Elem [114] [] [PI [116] [97; 63; 62; 98]]] = Err S_InvalidChar.
+Proof. vm_compute. repeat split; reflexivity. Qed.
+(** what remains outside the model's checks: PI data that begins with white space (it is read back without it) *)
+Example T12_pi_leading_space_refuted :
+  reparses_to sample_cfg 20 [Elem [114] [] [PI [116] [32; 97]]] [Elem [114] [] [PI [116] [97]]].
 Proof. vm_compute. reflexivity. Qed.
 Example T12_literal_cr_refuted :
   reparses_to sample_cfg 20 [Elem [114] [] [CData [97; 13; 98]; Comment [99; 13; 100]]]
@@ -193,6 +204,23 @@ Example T12_empty_text_not_idempotent :
   | Ok out => reparse false 20 out = Some [Elem [97] [] []] /\ ser_doc sample_cfg [Elem [97] [] []] <> Ok out
   | Err _ => False end.
 Proof. vm_compute. split; [reflexivity|discriminate]. Qed.
+
+(** T12_no_hidden_state: a serializer (formatter) object used for several writes.  In the model the k-th result of a
+    sequence is the result of a fresh write of the k-th job, whatever was written before; the tie to the code is the
+    "seq" / "fseq" correspondence of checks/C12.py (k-th output of a re-used DOMLSSerializer / XMLFormatter = output
+    of a fresh instance = model). *)
+Theorem T12_no_hidden_state : forall jobs k, nth_error (write_seq jobs) k = option_map write1 (nth_error jobs k).
+Proof. intros jobs k. unfold write_seq. apply nth_error_map. Qed.
+Print Assumptions T12_no_hidden_state.
+
+Theorem T12_no_hidden_state_after : forall before job, write_seq (before ++ [job]) = write_seq before ++ [write1 job].
+Proof. intros before job. unfold write_seq. rewrite map_app. reflexivity. Qed.
+Print Assumptions T12_no_hidden_state_after.
+
+Theorem T12_formatter_no_hidden_state : forall e x u jobs k,
+  nth_error (format_seq e x u jobs) k = option_map (format1 e x u) (nth_error jobs k).
+Proof. intros e x u jobs k. unfold format_seq. apply nth_error_map. Qed.
+Print Assumptions T12_formatter_no_hidden_state.
 
 (** T12_unserialisable: content that the model's checks refuse (characters that are not XML Chars, names / comments /
     PIs with characters the encoding cannot represent, "]]>" or unrepresentable data in a CDATA section when
@@ -277,17 +305,20 @@ Theorem T12_cdata_surrogate_old_refuted :
 Proof. exact cdata_surrogate_old_refuted. Qed.
 Print Assumptions T12_cdata_surrogate_old_refuted.
 
-(** known findings stated on the faithful model: a best-fit entry of the Windows-1252 table turns U+FF1C into
-    a literal "<" (F46); a run ending in an unpaired high surrogate makes the UTF-8 formatter loop (F44) *)
-Theorem T12_win1252_bestfit_refuted :
-  enc_can EWin1252 0xFF1C = true /\ enc_tr EWin1252 [0xFF1C] = Ok [60] /\ tbl win1252_from 60 = 60.
-Proof. exact win1252_bestfit_refuted. Qed.
-Print Assumptions T12_win1252_bestfit_refuted.
+(** known findings stated on the faithful model: the best-fit entries of the Windows-1252 table (F46: U+FF1C written as
+    a literal "<") are gone from the source (57a89d7); a run ending in an unpaired high surrogate made the UTF-8 formatter loop (F44; with
+    fixes/C12-formatter-no-progress.patch it raises Trans_BadSrcSeq) *)
+Theorem T12_win1252_bestfit_repaired :
+  enc_can EWin1252 0xFF1C = false /\
+  format_bytes EWin1252 false CharEscapes UnRep_CharRef [0xFF1C] = Ok [38; 35; 120; 70; 70; 49; 67; 59].
+Proof. exact win1252_bestfit_repaired. Qed.
+Print Assumptions T12_win1252_bestfit_repaired.
 
-Theorem T12_trailing_high_surrogate_hangs :
-  format_bytes EUtf8 false CharEscapes UnRep_CharRef [97; 0xD800] = Err F_Hang.
-Proof. exact trailing_high_surrogate_hangs. Qed.
-Print Assumptions T12_trailing_high_surrogate_hangs.
+Theorem T12_trailing_high_surrogate_refused :
+  format_bytes EUtf8 false CharEscapes UnRep_CharRef [97; 0xD800] = Err F_BadSrcSeq /\
+  hue8_old 3 k_tmp [97; 0xD800] = Err F_Hang.
+Proof. vm_compute. split; reflexivity. Qed.
+Print Assumptions T12_trailing_high_surrogate_refused.
 
 (** non-vacuity: the hypotheses are satisfiable by non-trivial values, and the models do what one expects *)
 Example T12_nonvacuous_string :
